@@ -107,6 +107,14 @@ def rule_entry(prog, rep):
                     outer = _outermost_def(mod.tree, node)
                     if outer is not fn2:
                         continue
+                    # `self._sample(...)` inside a class that is not a distribution names that class's own method
+                    if isinstance(node.value, ast.Name) and node.value.id == "self":
+                        encl = [cn for cn in ast.walk(mod.tree) if isinstance(cn, ast.ClassDef)
+                                and any(x is fn2 for x in cn.body)]
+                        if encl:
+                            ci = prog.classes.get(f"{mod.name}.{encl[0].name}")
+                            if ci is not None and not prog.is_subclass(ci, DIST) and ci.qualname != DIST:
+                                continue
                     n += 1
                     ok = fn2.name in PRIVATE or fn2.name in PUBLIC
                     if fn2.name in PUBLIC:
